@@ -125,6 +125,35 @@ int ops_misc(char **args, int na)
 		else printf("exit:%d\n", WEXITSTATUS(st));
 		return 0;
 	}
+	if (!strcmp(op, "cz.huge") && na == 4) {
+		/* cz.huge <algo> <level> <n>: n bytes of untouched anonymous zero pages (nothing is reserved) through compress and, when it
+		 * reports success, decompress: sizes around the codecs' own input limits (LZ4_MAX_INPUT_SIZE = 0x7E000000, INT_MAX).
+		 * reply as cz.big, or nomem */
+		size_t n = strtoull(args[3], NULL, 10);
+		uint8_t *in = mmap(NULL, n, PROT_READ, MAP_PRIVATE | MAP_ANONYMOUS | MAP_NORESERVE, -1, 0);
+		if (in == MAP_FAILED) { puts("nomem"); return 0; }
+		fflush(stdout);
+		pid_t pid = fork();
+		if (pid == 0) {
+			int devnull = open("/dev/null", O_WRONLY); if (devnull >= 0) dup2(devnull, 2);
+			uint8_t *out = NULL, *back = NULL; size_t on = 0, bn = 0;
+			if (wrap_compress(atoi(args[1]), args[2], in, n, &out, &on) != mtbl_res_success) _exit(11);
+			if (mtbl_decompress(atoi(args[1]), out, on, &back, &bn) != mtbl_res_success) _exit(12);
+			if (bn != n) _exit(13);
+			for (size_t i = 0; i < n; i += 4096) if (back[i]) _exit(13);
+			_exit(10);
+		}
+		int st = 0; waitpid(pid, &st, 0); munmap(in, n);
+		if (WIFEXITED(st) && WEXITSTATUS(st) == 10) puts("ok");
+		else if (WIFEXITED(st) && WEXITSTATUS(st) == 11) puts("cfail");
+		else if (WIFEXITED(st) && WEXITSTATUS(st) == 12) puts("dfail");
+		else if (WIFEXITED(st) && WEXITSTATUS(st) == 13) puts("mismatch");
+		else if (WIFEXITED(st) && WEXITSTATUS(st) == 99) puts("asan");
+		else if (WIFSIGNALED(st) && WTERMSIG(st) == SIGABRT) puts("abort");
+		else if (WIFSIGNALED(st)) printf("crash:%d\n", WTERMSIG(st));
+		else printf("exit:%d\n", WEXITSTATUS(st));
+		return 0;
+	}
 	if (!strcmp(op, "cz.raw") && na == 4) {
 		uint8_t *in; size_t n; if (unhex(args[3], &in, &n)) return -1;
 		uint8_t *out = NULL; size_t on = 0;
